@@ -61,6 +61,7 @@ class H:
         vmb = Cell(s.vm)
         r = s.it.call(s.table[proc], [Ref(vmb)])
         s.vm = vmb.v
+        s.raw = r.f[0] if r.var == 0 else None
         if r.var == 0: return ('ok', B.decode(s.f, s.it, s.vm, r.f[0]))
         return ('err', s.prog.enums['error::Error'][r.f[0].var])
 
@@ -161,10 +162,32 @@ def case_string_fill(h, n, argc):
     return expect(h, got, ('err',), key) or unchanged(h, 0, s)
 
 
+def fresh_result(h, argi, key='result-shares-storage-with-argument'):
+    """the string a procedure returns must be a new object: mutating it later must not reach the argument (R7RS: newly allocated)"""
+    f = h.f
+    cells = B.heap_cells(f, h.vm)
+    arg = cells[h.A.objs[argi][1]]
+    res = h.raw
+    n = 0
+    while res is not None and f.kind(res) == 'Ptr' and n < 4:
+        res = cells[res.f[0]]; n += 1
+    if res is None or f.kind(res) != 'String' or f.kind(arg) != 'String': return None
+    ra, rr = arg.f[0], res.f[0]
+    if ra.cell is rr.cell or ra.get() is rr.get():
+        return h.bad('the returned string is the argument itself (same storage): a later string-set! on one changes the other', key)
+    return None
+
+
+def case_string_append1(h, n1):
+    a = h.str('a', n1)
+    got = h.call('string-append')
+    return expect(h, got, ('ok', ('str', a)), 'string-append') or unchanged(h, 0, a) or fresh_result(h, 0)
+
+
 def case_string_append(h, n1, n2):
     a = h.str('a', n1); b = h.str('b', n2)
     got = h.call('string-append')
-    return expect(h, got, ('ok', ('str', a + b)), 'string-append') or unchanged(h, 0, a) or unchanged(h, 1, b)
+    return expect(h, got, ('ok', ('str', a + b)), 'string-append') or unchanged(h, 0, a) or unchanged(h, 1, b) or fresh_result(h, 0) or fresh_result(h, 1)
 
 
 def case_string_vector(h, n):
@@ -312,6 +335,8 @@ def plan(tier):
         for argc in (2, 3, 4):
             out.append(('string-fill!/n=%d/argc=%d' % (n, argc), case_string_fill, (n, argc)))
     for n1 in range(0, 3):
+        out.append(('string-append/%d' % n1, case_string_append1, (n1,)))
+    for n1 in range(0, 3):
         for n2 in range(0, 3):
             out.append(('string-append/%d+%d' % (n1, n2), case_string_append, (n1, n2)))
             if n1 + n2 <= (3 if tier == 'quick' else 4):
@@ -391,7 +416,7 @@ def py_model(proc, args):
         s = S(0)
         for i in range(a, b): s[i] = args[1][1]
         return ('mut', B.canon(('str', s)))
-    if proc == 'string-append': return ('ok', B.canon(('str', S(0) + S(1))))
+    if proc == 'string-append': return ('ok', B.canon(('str', S(0) + (S(1) if len(args) > 1 else []))))
     if proc == 'string->vector': return ('ok', B.canon(('vec', [('char', c) for c in S(0)])))
     if proc == 'vector->string': return ('ok', B.canon(('str', [c[1] for c in args[0][1]])))
     if proc == 'string': return ('ok', B.canon(('str', [a[1] for a in args])))
@@ -449,6 +474,15 @@ def native_verdict(replay, req):
     replay.ask('newvm')
     out = replay.ask('evalc ' + hexs(text))
     call = '(%s %s)' % (proc, ' '.join(B.canon(a) for a in args))
+    if req.get('key') == 'result-shares-storage-with-argument' or (proc == 'string-append' and not out.startswith(('ERR', 'PANIC', 'ABORT'))):
+        # freshness probe: fill the result and look at the arguments
+        names = ['a%d' % i for i in range(len(srcs))]
+        probe = '(let* (%s (r (%s %s))) (string-fill! r #\\z) (list %s))' % (' '.join('(%s %s)' % (n_, s_) for n_, s_ in zip(names, srcs)), proc, ' '.join(names), ' '.join(names))
+        ref = '(list %s)' % ' '.join(srcs)
+        replay.ask('newvm'); o1 = replay.ask('evalc ' + hexs(probe))
+        replay.ask('newvm'); o2 = replay.ask('evalc ' + hexs(ref))
+        if o1.startswith('OK') and o2.startswith('OK') and o1 != o2:
+            return True, 'after (string-fill! (%s ..) #\\z) the arguments read %s, they were %s: the result shares storage with an argument' % (proc, o1[3:], o2[3:])
     if out.startswith(('PANIC', 'ABORT')): return True, '%s: %s' % (call, out)
     if want[0] == 'err':
         return not out.startswith('ERR'), '%s => %s, expected an error' % (call, out)
